@@ -1,0 +1,41 @@
+//go:build verif
+
+package goja
+
+// Contracts for properties C04 (essential object invariants) and C11 (Proxy invariants).
+
+//@ func specSameValueOther uninterpreted
+//@ func specSameObjectOther uninterpreted
+
+// SameValue: every implementation of Value.SameAs is checked against ECMA-262 7.2.10
+// (strings, symbols, BigInt: uninterpreted).
+//@ iface Value.SameAs
+//@   props C04 C11
+//@   ensures result == specSameValue(self, p0) [samevalue]
+//@   assigns nothing
+
+//@ func (*proxyObject).__isCompatibleDescriptor
+//@   props C11
+//@   replay descriptor
+//@   observe dValue Value = desc.Value
+//@   observe dGetter Value = desc.Getter
+//@   observe dSetter Value = desc.Setter
+//@   observe dWritable Flag = desc.Writable
+//@   observe dEnumerable Flag = desc.Enumerable
+//@   observe dConfigurable Flag = desc.Configurable
+//@   observe cPresent bool = current != nil
+//@   observe cAccessor bool = current.accessor
+//@   observe cWritable bool = current.writable
+//@   observe cEnumerable bool = current.enumerable
+//@   observe cConfigurable bool = current.configurable
+//@   observe cValue Value = current.value
+//@   observe cGetter *Object = current.getterFunc
+//@   observe cSetter *Object = current.setterFunc
+//@   requires desc != nil && specDescWF(*desc) && specPropWF(specPropOf(current))
+//@   ensures result == specValidate(extensible, *desc, specPropOf(current)) [spec-eq]
+//@   assigns nothing
+
+//@ func (*PropertyDescriptor).IsAccessor pure
+//@ func (*PropertyDescriptor).IsData pure
+//@ func (*PropertyDescriptor).IsGeneric pure
+//@ func (Flag).Bool pure
